@@ -127,12 +127,12 @@ def cli_case_line(cid, args, d, now=0):
     return ' '.join(t)
 
 
-def cli_impl_trace(rc, out, outdir, existed_before, stale):
+def cli_impl_trace(rc, out, outdir, existed_before, stale, check_created=True):
     """the canonical lines of one run of the real binary, as the driver prints them for cli_main"""
     lines = []
     if rc != 0:
         # CliThrow: the process ends abnormally and NOTHING is created (the run happens in a fresh directory)
-        lines.append(['status', 'ABORT'] + (['but-created', os.path.basename(outdir)] + sorted(os.listdir(outdir)) if os.path.exists(outdir) else []))
+        lines.append(['status', 'ABORT'] + (['but-created', os.path.basename(outdir)] + sorted(os.listdir(outdir)) if (check_created and os.path.exists(outdir)) else []))
         return lines
     lines.append(['status', 'OK'])
     got = files.read_result_files(outdir)
@@ -147,7 +147,7 @@ def cli_impl_trace(rc, out, outdir, existed_before, stale):
     return lines
 
 
-def compare_with_model(ctx, bdir, metas, name='K-CLI(model)'):
+def compare_with_model(ctx, bdir, metas, name='K-CLI(model)', check_created=True):
     """the real binary on (argv, files) vs the extracted Gallina cli_main on the same argv and file contents: exit status, which files
     exist, every token of every file (the duration is a wildcard)"""
     wd = vf.workdir()
@@ -171,11 +171,33 @@ def compare_with_model(ctx, bdir, metas, name='K-CLI(model)'):
         outdir = os.path.join(fresh, os.path.relpath(m['out'], m['dir']))
         stale = {}
         rc, out = vf.run_cli(bdir, m['args'], fresh)
-        impl = cli_impl_trace(rc, out, outdir, None, stale)
+        impl = cli_impl_trace(rc, out, outdir, None, stale, check_created)
         model = [x for x in tm.get('C %d' % m['cid'], [])]
         model = [x[:2] if x[0] == 'status' and x[1] == 'ABORT' else x for x in model if x[0] != 'outdir']
         def wild(rows):
-            return [(['row', 'run_info.dat', r[2], ':', '#', 'Duration', '(s)', '=', '?'] if r[:2] == ['row', 'run_info.dat'] and r[4:7] == ['#', 'Duration', '(s)'] else r) for r in rows]
+            # what is compared is the FRONT END's own logic: exit status, which files exist, their shape (rows, tokens per row), the vertex labels,
+            # the layer headers, the number of realizations, the seed.  The numbers the solver computed (memberships, affinities, likelihoods,
+            # iteration counts, termination reasons) are masked: that they are the library's is K-WRITE's business (binary vs the real library),
+            # and a change of the numerics inside the library must not make this comparison fire.
+            out = []
+            for r in rows:
+                if r[0] != 'row':
+                    out.append(r)
+                    continue
+                name, idx, toks = r[1], int(r[2]), list(r[4:])
+                if name == 'run_info.dat':
+                    if toks[:2] == ['#', 'Duration'] or toks[:3] == ['#', 'Maximum', 'Likelihood']:
+                        toks = toks[:-1] + ['?']
+                    elif toks and toks[0] != '#':
+                        toks = toks[:1] + ['?'] * (len(toks) - 1)
+                elif toks[:3] == ['#', 'Max', 'likelihood=']:
+                    toks = toks[:3] + ['?'] + toks[4:]
+                elif name in ('u_out.dat', 'v_out.dat'):
+                    toks = toks[:1] + ['?'] * (len(toks) - 1)
+                elif name == 'w_out.dat' and toks[:1] != ['a=']:
+                    toks = ['?'] * len(toks)
+                out.append(r[:4] + toks)
+            return out
         a, b = wild(impl), wild(model)
         st['compared_tokens'] += sum(len(x) for x in a)
         if 'ERROR: AddressSanitizer' in out or 'runtime error:' in out:
